@@ -352,6 +352,7 @@ def showKind : ArgKind → String
   | .d o c => "d" ++ hexOf o.toNat ++ "." ++ hexOf c.toNat
   | .v => "v"
   | .vd o c => "V" ++ hexOf o.toNat ++ "." ++ hexOf c.toNat
+  | .m0 => "m0"
 where
   hexOf (n : Nat) : String := String.ofList (Nat.toDigits 16 n)
 
